@@ -18,6 +18,19 @@ def run(ctx):
         progs = main.result()
         for b in bs:
             b.result()
+    # inductive step of the delta maintenance for ALL Lengths, counts and entries (Apalache, symbolic); the "+1" count
+    # accounting must be refuted (non-vacuity)
+    with cf.ThreadPoolExecutor(max_workers=2) as ex:
+        common = ["--init=Init", "--next=Next", "--inv=IndInv", "--length=1"]
+        a = ex.submit(vlib.apalache, ctx, "APA_CkDelta.tla", ["--cinit=ConstOk"] + common, "ok")
+        b = ex.submit(vlib.apalache, ctx, "APA_CkDelta.tla", ["--cinit=ConstBug"] + common, "bug")
+        (ra, ta), (rb, tb) = a.result(), b.result()
+    if ra == "error":
+        raise vlib.ToolError("Apalache refutes the inductive step of the specification's checksum maintenance (APA_CkDelta)")
+    if rb == "ok":
+        raise vlib.ToolError("APA_CkDelta: the '+1' count accounting was not refuted -- the theorem is vacuous")
+    ctx.extra["apalache"] = {"module": "APA_CkDelta.tla", "inductive_step": ra, "countbug_refuted": rb == "error", "wall_s": [ta, tb],
+                             "domain": "all Length, count < 2^32, entry sizes 1..65535, entry byte sums 0..255 (symbolic)"}
     progs += tc.sim_replays(ctx, schema.BODY_KINDS + ["SLIT", "FADT", "TCPA_SERVER"], 9, 40 if th else 8)   # 9-step behaviours chosen by TLC
     longs = []
     for k in schema.BODY_KINDS:
